@@ -90,6 +90,9 @@ func (g *Generator) MakeData(typeName string) (any, bool) {
 	g.makeSQL()
 
 	if len(g.data.NameList) == 0 {
+		if g.IsTypeSpecified() {
+			logx.Warnf("no constants of type %s found, nothing generated for it", typeName)
+		}
 		return nil, false
 	}
 
